@@ -254,7 +254,7 @@ def _work(item):
 
 def build_items(tier):
     items = []
-    bound = 0 if tier == "quick" else 1
+    bound = 0 if tier == "quick" else 2
     kinds = ["early", "order"]
     backs = ["memory", "pathio"] if tier == "quick" else ["memory", "pathio", "async"]
     solos = {b: solo_other(b) for b in backs}
@@ -315,7 +315,7 @@ def run(tier, seed, t0):
               "fault_modes": ["single (k-th call)", "repeated (every call of that operation kind from k on)"],
               "exception_kinds": ["OSError", "TimeoutError", "ValueError", "KeyError", "RuntimeError", "bare aioftp.PathIOError",
                                   "ConnectionResetError"],
-              "deviation_bound": 0 if tier == "quick" else 1, "second_session": True, "cases": len(items)}
+              "deviation_bound": 0 if tier == "quick" else 2, "second_session": True, "cases": len(items)}
     return report.finish(
         PID, tier, seed, "fault_enumeration", part, t0,
         rule="case = (script, backend, fault position k, mode); executed on the real server in SimLoop; every counted "
